@@ -198,6 +198,8 @@ def gen_case(tape, tier):
             cfg["max_size"] = tape.pick([None, 1, 2, 3], "disk-max")
             cfg["with_lru"] = bool(tape.coin(0.6, "with-lru"))
             cfg["lru_size"] = 1 + tape.choose(2, "lru-size")
+        if tape.coin(0.2, "key-alphabet"):
+            cfg["alphabet"] = tape.pick(sorted(ALPHABETS), "alphabet")
         if cls == "hybrid":
             # the documented score is access_weight*norm_count + duration_weight*norm_duration for ANY two weights
             cfg["access_weight"], cfg["duration_weight"] = tape.pick([[0.5, 0.5], [0.5, 0.5], [1.0, 1.0], [1.0, 0.0], [0.0, 1.0],
@@ -236,6 +238,8 @@ def gen_case(tape, tier):
         cfg["max_size"] = tape.pick([None, 1, 2, 3], "disk-max")
         cfg["with_lru"] = bool(tape.coin(0.6, "with-lru"))
         cfg["lru_size"] = 1 + tape.choose(2, "lru-size")
+    if tape.coin(0.2, "key-alphabet"):
+        cfg["alphabet"] = tape.pick(sorted(ALPHABETS), "alphabet")
     nv = 0
 
     def gen_ops(n):
@@ -267,6 +271,10 @@ def simplify(case):
                 del c["keys"][i]
                 yield c
         return
+    if case["config"].get("alphabet"):
+        c = copy.deepcopy(case)
+        del c["config"]["alphabet"]
+        yield c
     if case["part"] == "A":
         for i in range(len(case["ops"])):
             c = copy.deepcopy(case)
@@ -304,7 +312,57 @@ def simplify(case):
 
 
 # ------------------------------------------------------------------ construction
+ALPHABETS = {
+    # symbolic key of the history -> key actually handed to the cache.  'falsy': every key is falsy (None, 0, "", ()),
+    # 'tuples': keys shaped like the ones pipefunc builds (output name, sorted keyword items)
+    "falsy": {"a": None, "b": 0, "c": "", "d": ()},
+    "tuples": {"a": ("o0", (("x", 1),)), "b": ("o0", (("x", 2),)), "c": (("o1", "o2"), (("x", 1), ("y", None))), "d": ("o3", ())},
+}
+
+
+class KeyAdapter:
+    """The cache under test behind a translation of the history's symbolic keys (models keep the symbolic ones)."""
+
+    def __init__(self, cache, alphabet):
+        self._c, self._alphabet = cache, alphabet
+
+    def _k(self, k):
+        return ALPHABETS[self._alphabet].get(k, k) if isinstance(k, str) else k
+
+    def put(self, key, *a, **kw):
+        return self._c.put(self._k(key), *a, **kw)
+
+    def get(self, key, *a, **kw):
+        return self._c.get(self._k(key), *a, **kw)
+
+    def __contains__(self, key):
+        return self._k(key) in self._c
+
+    def __len__(self):
+        return len(self._c)
+
+    def clear(self):
+        return self._c.clear()
+
+    def _get_file_path(self, key):
+        return self._c._get_file_path(self._k(key))
+
+    def __getattr__(self, name):
+        return getattr(self.__dict__["_c"], name)
+
+    def __getstate__(self):
+        return {"_c": self._c, "_alphabet": self._alphabet}
+
+    def __setstate__(self, st):
+        self.__dict__.update(st)
+
+
 def make_cache(cfg, root):
+    c = _make_cache(cfg, root)
+    return KeyAdapter(c, cfg["alphabet"]) if cfg.get("alphabet") else c
+
+
+def _make_cache(cfg, root):
     import pipefunc.cache as pc
 
     cls = cfg["cls"]
@@ -804,6 +862,8 @@ def run_case(case, exec_seed=None, exec_tape=None):
         viol, probes, sim = run_B(case, tape)
     cfg = case["config"]
     probes[f"part:{case['part']}"] = 1
+    if cfg.get("alphabet"):
+        probes[f"keys:{cfg['alphabet']}"] = 1
     probes[f"cls:{cfg['cls']}"] = 1
     if cfg.get("shared"):
         probes["shared"] = 1
